@@ -74,8 +74,8 @@ View == [st EXCEPT !.k = 0]
 Bytes(r) == IF r.ok THEN r.b ELSE <<>>
 DecOut(tn, b, boxed) ==
   LET r == Dec1(tn, NoEnv, b, 1, ~boxed) IN
-  IF ~r.ok THEN [ok |-> FALSE, unk |-> r.unk, consumed |-> 0, re |-> <<>>]
-  ELSE [ok |-> TRUE, unk |-> FALSE, consumed |-> r.pos - 1, re |-> Bytes(Enc1(tn, NoEnv, r.v, ~boxed))]
+  IF ~r.ok THEN [ok |-> FALSE, unk |-> r.unk, big |-> r.big, consumed |-> 0, re |-> <<>>]
+  ELSE [ok |-> TRUE, unk |-> FALSE, big |-> FALSE, consumed |-> r.pos - 1, re |-> Bytes(Enc1(tn, NoEnv, r.v, ~boxed))]
 
 (* "oversize": the minimal encoding with its outermost declared size increased by one *)
 ReBytes ==
@@ -90,6 +90,7 @@ Payload ==
         tl1b |-> IF TY(st.tn).origin2 THEN <<>> ELSE Bytes(Enc1(st.tn, NoEnv, st.v, FALSE)),
         small |-> ~TY(st.tn).origin2 /\ SmallElems(st.tn, NoEnv, st.v),
         negzero |-> HasNegZero(st.tn, st.v),
+        tl2opt |-> HasTL2OnlyOpt(st.tn, st.v),
         hastl2 |-> TY(st.tn).tl2,
         tl2 |-> IF TY(st.tn).tl2 THEN Enc2(st.tn, st.v, FALSE) ELSE <<>>,
         json |-> WJ(st.tn, NoEnv, st.v, "canon")]
